@@ -206,6 +206,8 @@ type GenScript struct {
 	// renders nothing and returns ErrSkip
 	QuietPkgs []string `json:"quiet_pkgs,omitempty"`
 	Alias     *Action  `json:"alias,omitempty"` // behaviour of GenerateAliasType (nil: render nothing)
+	// AliasByType: behaviour of GenerateAliasType for one alias declaration, key <pkgpath>.<AliasName> (wins over Alias)
+	AliasByType map[string]Action `json:"alias_by_type,omitempty"`
 }
 
 type Event struct {
@@ -517,6 +519,9 @@ func (in *inst) alias(gen string, c gengo.Context, al *types.Alias) error {
 			}
 			c.Render(snippet.Block(fmt.Sprintf("const NA_%s_%s = %d\n", typ, gen, in.aliases)))
 		}
+	}
+	if a, ok := s.AliasByType[pkg+"."+typ]; ok {
+		return in.perform(c, gen, a, typ)
 	}
 	if s.Alias == nil {
 		return nil
